@@ -60,6 +60,38 @@ def interactive_part(report, rng, tier):
     return n
 
 
+def long_part(report, rng, tier):
+    """Runs that really last more than 2^16 / 10^5 cycles (a cycle budget clamped, narrowed or reset on the way is
+    invisible in short runs): a counter that halts in cycle H+1, under budgets just below, at and above H+1."""
+    cases, spec = {}, {}
+    hs = [70000, 100001] if tier == "quick" else [65535, 65536, 70000, 99999, 100001, 131072, 262144]
+    k = 0
+    for h in hs:
+        for t in sorted({h - 1, h + 1, h + 5, 99999, 100000, 131073}):
+            if tier == "quick" and rng.random() < 0.4:
+                continue
+            cid = "L%d" % k
+            k += 1
+            hcl = "register cC { n : 32 = 0; }\nc_n = C_n + 1;\npc = 0;\nStat = [ C_n == %d : STAT_HLT; C_n > %d : STAT_INS; 1 : %s; ];\n" % (h, h, rng.choice(["STAT_AOK", "STAT_AOK", "[ (C_n)[3..4] == 1 : STAT_BUB; 1 : STAT_AOK ]"]))
+            cases[cid] = {"hcl": hcl, "yo": gen.yo_line(0, b"\x00") + "\n", "flags": "q", "timeout": t}
+            spec[cid] = (min(t, h + 1), "halted" if h + 1 <= t else "timeout", h, t)
+    impl, model, stats = simcheck.run_sim_cases(report, cases, kind="run", key_prefix="longrun")
+    for cid, (want_cycles, want_kind, h, t) in spec.items():
+        blk = impl.get(cid, [])
+        fl = [l for l in blk if l.startswith("flags ")]
+        dump = [l for l in blk if l.startswith("dump ")]
+        if not fl or not dump:
+            continue
+        flags = dict(x.split("=") for x in fl[0][6:].split())
+        first = bytes.fromhex(dump[0][5:]).decode().split("\n")[0]
+        got = "halted" if "halted in state" in first else "timeout" if "timed out after" in first else "error" if "error caused" in first else "running"
+        rep = {"case": cases[cid], "halts_in_cycle": h + 1, "timeout": t, "impl": blk[-3:], "header": first}
+        if int(flags["cycle"]) != want_cycles or got != want_kind:
+            report.violation("run-cycles-long", "ran %s cycles and reports '%s'; the property says %d cycles and '%s' (halt in cycle %d, timeout %d)"
+                             % (flags["cycle"], got, want_cycles, want_kind, h + 1, t), rep)
+    return len(cases)
+
+
 def check(report, tier, seed):
     rng = random.Random(seed)
     cases, meta = {}, {}
@@ -134,11 +166,12 @@ def check(report, tier, seed):
             if not m or not (m.group(1).startswith("%d " % code) or (code > 5 and m.group(1) == "<unknown>")):
                 report.violation("run-report-code", "error report does not name status %d: %r" % (code, m.group(1) if m else None), rep)
     n_inter = interactive_part(report, rng, tier)
-    report.coverage["evaluations"] = len(cases) + n_inter
+    n_long = long_part(report, rng, tier)
+    report.coverage["evaluations"] = len(cases) + n_inter + n_long
     report.coverage["distinct_nontrivial"] = len(set((tuple(s), t) for s, t in meta.values()))
     report.coverage["exhaustive"] = True
     report.coverage["rule"] = ("every Stat sequence over the eight 3-bit values of length <= %d x timeouts 0..%d (exhaustive; quick tier thins length 3 to "
                                "one in three), plus random longer sequences with timeout = halting cycle +-1, plus halting sequences under budgets 2^15-1 .. 2^32-1; run through RunningProgram::run with "
-                               "option sets -, -q, -t, -d; distinct = distinct (sequence, timeout); plus the real binary with -i / --interactive and 0, 1, half as many and more lines on standard input than cycles: same exit status and, prompts removed, same standard output as without the prompt" % (maxlen, tmax))
+                               "option sets -, -q, -t, -d; distinct = distinct (sequence, timeout); plus counters halting after 70 000 - 262 144 cycles under budgets just below, at and above the halting cycle and around 10^5 and 2^17; plus the real binary with -i / --interactive and 0, 1, half as many and more lines on standard input than cycles: same exit status and, prompts removed, same standard output as without the prompt" % (maxlen, tmax))
     report.coverage["distribution"] = dict(stats, interactive_runs=n_inter, **{"spec_" + k: v for k, v in kinds.items()})
     report.coverage["samples"] = [{"seq": meta["t5"][0], "timeout": meta["t5"][1], "hcl": cases["t5"]["hcl"]}]
